@@ -381,7 +381,9 @@ def makeclusters(crys, cutoff, maxorder, exclude=()):
     # first, make lists of all our pairs within a given nn distance
     # we could modify this to use different cutoff between different chemistries...
     r2 = cutoff * cutoff
-    nmax = [int(np.round(np.sqrt(r2/crys.metric[i, i]))) + 1
+    # |n_i| <= cutoff * |row i of the inverse lattice| bounds the lattice coordinates of any vector shorter than the cutoff
+    # (the lattice vector lengths alone do not, for cells that are not orthogonal); +1 for the offset between basis sites
+    nmax = [int(np.ceil(np.sqrt(r2*np.dot(crys.invlatt[i], crys.invlatt[i])))) + 1
             for i in range(crys.dim)]
     nranges = [range(-n, n+1) for n in nmax]
     supervect = [np.array(ntup) for ntup in itertools.product(*nranges)]
